@@ -48,6 +48,7 @@ MonInit ==
     connLost |-> FALSE, viol |-> {}, dead |-> FALSE,
     big |-> {},          \* fragments answered with a reply that may not fit one read: when it has been read is unknown until the end
     slow |-> {},         \* clients that stopped reading at some point: "by the end of the iteration" means nothing for them
+    slowenv |-> FALSE,   \* a scenario with a real (wall-clock) request timeout ran on a machine too slow for its timing to mean anything
     topoSeen |-> FALSE,  \* the scenario changes the cluster's description (the slot table is then not the static one)
     role |-> "", base |-> [nlog |-> <<>>, got |-> <<>>, cst |-> <<>>] ]   \* C08: outcome of the unsegmented twin
 
@@ -149,7 +150,7 @@ GotViol(m, c, i, rep) ==
              \* own making (unless a connection was lost or a deadline passed on the way)
              \cup (IF r.k \notin LocalKinds /\ redirKnown /\ IsErr(rep) /\ ~anyErr /\ ~fault
                    THEN {<<"C13", c, i, "redirected-request-answered-with-an-error-of-the-proxy">>} ELSE {})
-      v16 == (IF IsTimeoutErr(rep) /\ ~anyExp THEN {<<"C16", c, i, "spurious-timeout">>} ELSE {})
+      v16 == (IF IsTimeoutErr(rep) /\ ~anyExp /\ ~m.slowenv THEN {<<"C16", c, i, "spurious-timeout">>} ELSE {})
              \cup (IF HadTimeout(m, c) /\ (foreign # {} \/ ~TypeFits(r.k, rep))
                    THEN {<<"C16", c, i, "reply-after-a-timeout-is-not-the-request's">>} ELSE {})
       rest ==
@@ -373,6 +374,7 @@ MonApply(m, e) ==
     \* a connect to a node failed (the node is down, or the machine so overloaded that the connect timed out): from here
     \* on an error reply may be the environment's doing
     [] e.ev = "envfault" -> [m EXCEPT !.connLost = TRUE]
+    [] e.ev = "slowenv" -> [m EXCEPT !.slowenv = TRUE]
     [] e.ev = "dead" -> [m EXCEPT !.dead = TRUE, !.viol = @ \cup {<<"DEAD", "", 0, "proxy-died">>}]
     [] OTHER -> m
 =============================================================================
